@@ -371,7 +371,7 @@ def run(ctx):
         for i, p in enumerate(sorted(glob.glob(os.path.join(vlib.VERIF, "corpus", ctx.prop, "*.tsv")))):
             jobs.append(("corpus%d" % i, "-replay %s" % p, "first"))
         jobs.append(("fresh", "-seed %d -n %d -len %d -tier %s" % (ctx.seed, nlogs, llen, ctx.tier), None))
-        jobs.append(("pairs", "-pairs", "pairs"))
+        jobs.append(("pairs", "-pairs -tier %s" % ctx.tier, "pairs"))
 
     all_mism, all_fail, total = [], [], 0
     stats = dict(logs=0, skipped_panic=0, comparisons=0, runerr=0, raw_only_diffs=0, by_dim={})
